@@ -1,5 +1,6 @@
 import Feox.Proto.Disk
 import Feox.Props.C06
+import Feox.Props.C05Space
 /-!
 # C05 — each data block has exactly one owner or is free; freed space is reusable
 
@@ -7,7 +8,10 @@ Block level: a tiled data area is *partitioned* into free-looking blocks and the
 records recovery finds, extents are pairwise disjoint and inside the data area, and a
 transaction for one region changes no block outside it.  Allocator level (`C06`): the free
 set shrinks / grows by exactly the ranges handed out / given back, and an emptied device has
-the one maximal free run of a fresh one.
+the one maximal free run of a fresh one.  Bookkeeping level (`C05Space`): the allocator's free set,
+the extents of published records and the reservations of unfinished batches partition the data
+area after any history (`partition_after_any_history`), and the allocator never rejects the
+release of an extent the store holds.
 -/
 namespace Feox.C05
 open Feox.Proto
